@@ -28,6 +28,14 @@
 #include <cstring>
 #include <cassert>
 
+/* a decimal stored in an integer element must fit in an integer */
+static bloc::Integer toIntegerElement(bloc::Numeric d)
+{
+  if (!(d >= -9223372036854775808.0 && d < 9223372036854775808.0))
+    throw bloc::RuntimeError(bloc::EXC_RT_OUT_OF_RANGE);
+  return (bloc::Integer)d;
+}
+
 namespace bloc
 {
 
@@ -175,7 +183,7 @@ Value& MemberCONCATExpression::value(Context& ctx) const
       case Type::INTEGER:
         if (a0_type == Type::NUMERIC)
         {
-          rv->push_back(a0.isNull() ? Value(Value::type_integer) : Value(Integer(*a0.numeric())));
+          rv->push_back(a0.isNull() ? Value(Value::type_integer) : Value(toIntegerElement(*a0.numeric())));
           return val;
         }
         else if (a0.type() == Type::NO_TYPE)
